@@ -639,6 +639,24 @@ def check_evaluate(ctx, fb):
             init = rv[4] if rv[0] == "phi" else None
             if ok and not (init and init[0] == "call" and init[1] == "std::vec::from_elem" and init[2][1] == ("len", P(3))):
                 ok, why = False, "output vector is initialised as %s, specification len(outputs) elements" % sh(init, 100)
+    if not ok and len(rets) == 1:
+        # the same selection written as outputs.iter().map(|&o| values[o]).collect()
+        rv = eng.value_of(rets[0].store, rets[0].ret)
+        t = rv
+        while isinstance(t, tuple) and t and t[0] == "call" and re.search(r"::(collect|into_iter|iter|copied|cloned)$", t[1]) and t[2]:
+            t = t[2][0]
+        if isinstance(t, tuple) and t and t[0] == "call" and t[1].endswith("Iterator::map") and len(t[2]) == 2 and isinstance(t[2][1], tuple) and t[2][1][0] == "closure":
+            seq = t[2][0]
+            while isinstance(seq, tuple) and seq and seq[0] == "call" and re.search(r"::(iter|into_iter|copied|cloned)$", seq[1]) and seq[2]:
+                seq = seq[2][0]
+            cl = t[2][1]
+            cit = fb.items.get(cl[1])
+            if seq == P(3) and cit is not None and len(cl[2]) == 1 and cl[2][0] == vals:
+                ctx.touch(cit)
+                e8 = Engine(fb, inline=lambda i: False)
+                crets = [e8.value_of(q.store, q.ret) for q in e8.run(cit) if q.kind == "return"]
+                ok = len(crets) == 1 and crets[0] == ("idx", F(P(1), "0"), P(2))
+                why = "map closure returns %s, specification values[output]" % [sh(x, 80) for x in crets]
     ctx.check(ok, "R20-4", "evaluate outputs", "out[i] = values[outputs[i]] for i in 0..len(outputs)", why, loc(it))
     ctx.floor("evaluate-arms", n, 6)
     # get_inputs_buffer
